@@ -36,6 +36,9 @@ JOB_TIMEOUT = 2400
 CAP = {'quick': 400.0, 'thorough': 3000.0}
 BATCH = 20
 RUN_TIMEOUT = 150
+# CPU seconds allowed to one in-process run: the slowest shape of the alphabet needs 0.8 s on the unchanged tree, most 0.1 s
+CPU_BASE, CPU_PER_MODULE = 8, 2
+JOB_TIMEOUT = 3000
 
 COLLISION = ['def', 'class', 'lambda', 'prop', 'overload', 'overload-after', 'deprecated', 'base-cycle', 'base-self', 'assign', 'assign-tuple', 'aug', 'ann', 'final', 'typealias',
              'self-attr', 'doc-assign', 'all-ok', 'all-odd', 'docformat-odd', 'imp-star', 'imp-rel', 'if-else', 'main', 'try', 'str-stmt', 'doc-surrogate', 'const-re', 'zope', 'attrs',
@@ -122,7 +125,7 @@ def run_modules(mods: Dict[str, str], fmt: str) -> Tuple[Optional[str], List[Tup
     for name, src in mods.items():
         files[f'pk/{name}.py'] = src + '\n'
     try:
-        with core.time_limit(RUN_TIMEOUT):
+        with core.time_limit(RUN_TIMEOUT), core.cpu_limit(CPU_BASE + CPU_PER_MODULE * len(mods)):
             with pd.cli_run(files, ['--docformat', fmt], roots=['pk']) as r:
                 if r.exc:
                     return f'{r.exc_type}@{r.exc_site}', []
@@ -130,7 +133,7 @@ def run_modules(mods: Dict[str, str], fmt: str) -> Tuple[Optional[str], List[Tup
                     return f'status-{r.status}', []
                 return None, check_outputs(r, list(mods))
     except core.JobTimeout:
-        return f'hang>{RUN_TIMEOUT}s', []
+        return 'hang', []
 
 
 def explore(batch: Sequence[Tuple[str, str, str]], fmt: str, res: Dict[str, Any]) -> None:
